@@ -45,8 +45,17 @@ def load() -> list[type]:
     return out
 
 
+def register(cls: type) -> None:
+    """Make a class outside kio.schema (sim.synth) resolvable by name without adding it to the universe."""
+    _by_name[qualname(cls)] = cls
+
+
 def by_name(q: str) -> type:
     load()
+    if q not in _by_name and q.startswith("sim.synth:"):
+        from . import synth
+
+        synth.load()
     return _by_name[q]
 
 
